@@ -2,4 +2,4 @@ From Coq Require Import Extraction ExtrOcamlBasic.
 From LTV.C11 Require Import Model.
 Set Extraction Optimize.
 Extraction Language OCaml.
-Extraction "extracted/c11_model.ml" init step run wire_accept wobserve.
+Extraction "extracted/c11_model.ml" init init_h step run wire_accept wobserve.
